@@ -181,6 +181,12 @@ def evaluate(reg, pol, impl, model):
     for k, v in impl.items():
         if k.startswith('lookup ') and v != 'ok':
             bad('C01', 'published v-table pointer for id %s: %s' % (k.split()[1], v))
+        # virtual_ptr made from a base reference, and (indirect policies) virtual_ptrs kept across the update: C09
+        if k.startswith('vptr ') and v != 'ok':
+            bad('C09', 'virtual_ptr made from a reference to an object of id %s does not carry its class\'s v-table pointer: %s' % (k.split()[1], v))
+            bad('C01', 'virtual_ptr made from a reference to an object of id %s does not carry its class\'s v-table pointer: %s' % (k.split()[1], v))
+        if k.startswith('keptvptr ') and v != 'ok':
+            bad('C09', 'a virtual_ptr (indirect policy) created before the update no longer gives the v-table of its class (id %s): %s' % (k.split()[1], v))
     return out
 
 
@@ -704,7 +710,7 @@ def history_suite(tier, seed):
         fresh = run_h1(binp, fresh_text, timeout=1200)
         for h in hists:
             ir = impl.get(h.name, {'lines': [], 'crashed': True, 'stderr': 'no output'})
-            fails = []; ndiff = 0
+            fails = []; ndiff = 0; fails_c09 = []
             chunks = split_updates(split_by_policy(ir['lines']).get(h.pol, []))
             if ir['crashed']:
                 fails.append('the library crashed during the history (after %d updates): %s' % (len(chunks), ir['stderr'][-300:]))
@@ -714,9 +720,10 @@ def history_suite(tier, seed):
                 iobs = parse_obs(chunks[k])
                 ev = evaluate(reg, h.pol, iobs, parse_obs(model.get('%s.%d' % (h.name, k), [])))
                 ndiff += 1 if ev['ndiffs'] else 0
-                for prop in ('C01', 'C02', 'C03', 'C04'):
+                for prop in ('C01', 'C02', 'C03', 'C04', 'C09'):
                     for msg in ev['fail'].get(prop, [])[:1]:
                         fails.append('after update %d of the history: %s' % (k, msg))
+                        if prop == 'C09': fails_c09.append('after update %d of the history: %s' % (k, msg))
                 view = user_view(reg, iobs)
                 if k > 0 and h.updates[k - 1] == reg and last_view is not None and view != last_view:
                     kk = [x for x in sorted(set(view) | set(last_view)) if view.get(x) != last_view.get(x)][0]
@@ -735,7 +742,7 @@ def history_suite(tier, seed):
                     fails.append('after the history %s is %s but a fresh process with the same registrations gives %s' % (kk, last_view.get(kk), fview.get(kk)))
             reg0 = h.updates[0]
             res['cases'].append({'name': h.name, 'reg': h.updates[-1], 'orders': len(h.updates), 'hash': hashlib.sha1('\n'.join(h.lines).encode()).hexdigest(),
-                                 'nontrivial': any(k.startswith('del') for k in h.ops), 'fails': fails[:5], 'ndiffs': ndiff, 'failing_variant': None,
+                                 'nontrivial': any(k.startswith('del') for k in h.ops), 'fails': fails[:5], 'fails_c09': fails_c09[:5], 'ndiffs': ndiff, 'failing_variant': None,
                                  'history': h.lines if fails else None, 'policy': h.pol})
             for k, v in h.ops.items():
                 res['dist'][k] = res['dist'].get(k, 0) + v
